@@ -618,6 +618,8 @@ func ZRangeRank(key string, start, stop int, desc bool) *Op {
 	return &Op{Name: "ZRangeRank", Tok: fmt.Sprintf("ZRangeRank %s %s %s %s", SS(key), I(start), I(stop), B(desc)),
 		Run: func(r R, x *Exec, op *Op) Res {
 			c := r.ZSet().RangeWith(key).ByRank(start, stop)
+			// (a second command derived from the same builder value must not change the first)
+			_ = c.ByRank(start+5, stop+7).Desc()
 			// Offset and Count are documented to "only take effect when filtering by score":
 			// on a rank range they must change nothing (given in either order around ByRank)
 			switch ((start%5)+5)%5 + ((stop%3)+3)%3 {
@@ -653,6 +655,7 @@ func ZRangeScore(key string, lo, hi float64, desc bool, offset, count int) *Op {
 				c = c.ByRank(0, 0) // replaced by the score range given after it
 			}
 			c = c.ByScore(lo, hi).Offset(offset).Count(count)
+			_ = c.ByScore(lo-100, hi+100).Offset(offset + 3) // derived from the same value: must not change c
 			if desc {
 				c = c.Desc()
 			}
